@@ -47,12 +47,54 @@ theorem rowsOf_map_append (st : DsState) (a b : Nat) (row : List Param) :
       · simp only [heb, Bool.false_eq_true, if_false, he]
         simpa using ih
 
-/-- One row per packet of the APID, in stream order: the rows of APID `a` are the cells of the packets of APID `a`,
-    in the order the packets arrive (files in the order given, since the packet list is the concatenation). -/
+/-- The column order of an APID: the field names of its first packet (`none` while no packet of it has arrived). -/
+def keysOf (st : DsState) (a : Nat) : Option (List String) := (st.find? (·.1 == a)).map (·.2.1)
+
+/-- A packet's values in a given column order: each value is looked up by the *name* of its column. -/
+def alignRow (ks : List String) (p : DsPacket) : List Param :=
+  ks.filterMap (fun k => (p.cells.find? (·.1 == k)).map (·.2))
+
+/-- The rows a run of packets of one APID contributes: the first packet fixes the column order, every later packet is
+    aligned to it by name (so the order of the items inside a later packet does not matter). -/
+def rowsFrom : Option (List String) → List DsPacket → List (List Param)
+  | _, [] => []
+  | none, p :: ps => p.cells.map (·.2) :: rowsFrom (some (p.cells.map (·.1))) ps
+  | some ks, p :: ps => alignRow ks p :: rowsFrom (some ks) ps
+
+theorem keysOf_append_new (st : DsState) (a b : Nat) (ks : List String) (row : List Param)
+    (hb : st.find? (·.1 == b) = none) :
+    keysOf (st ++ [(b, (ks, [row]))]) a = if a = b then some ks else keysOf st a := by
+  unfold keysOf
+  rw [List.find?_append]
+  by_cases hab : a = b
+  · subst hab; simp [hb]
+  · have : ((b, (ks, [row])).1 == a) = false := by simpa using fun e => hab e.symm
+    cases h : st.find? (·.1 == a) with
+    | some e => simp [hab]
+    | none => simp [hab, this]
+
+theorem keysOf_map_append (st : DsState) (a b : Nat) (row : List Param) :
+    keysOf (st.map (fun e => if e.1 == b then (e.1, (e.2.1, e.2.2 ++ [row])) else e)) a = keysOf st a := by
+  induction st with
+  | nil => simp [keysOf]
+  | cons e rest ih =>
+    unfold keysOf at ih ⊢
+    simp only [List.map_cons, List.find?_cons]
+    by_cases he : (e.1 == a) = true
+    · by_cases heb : (e.1 == b) = true <;> simp [he, heb]
+    · by_cases heb : (e.1 == b) = true
+      · simp only [heb, if_true, he]
+        simpa using ih
+      · simp only [heb, Bool.false_eq_true, if_false, he]
+        simpa using ih
+
+/-- One row per packet of the APID, in stream order (files in the order given, since the packet list is the
+    concatenation): the first packet of the APID fixes the column order and contributes its values as they come; every
+    later packet contributes its values *by column name*. -/
 theorem rows_per_apid (ps : List DsPacket) (st st' : DsState) (a : Nat) (h : dsBuild st ps = some st') :
-    rowsOf st' a = rowsOf st a ++ ((ps.filter (·.apid = a)).map (fun p => p.cells.map (·.2))) := by
+    rowsOf st' a = rowsOf st a ++ rowsFrom (keysOf st a) (ps.filter (·.apid = a)) := by
   induction ps generalizing st with
-  | nil => simp [dsBuild] at h; subst h; simp
+  | nil => simp [dsBuild] at h; subst h; simp [rowsFrom]
   | cons p ps ih =>
     simp only [dsBuild] at h
     cases hadd : dsAdd st p with
@@ -65,11 +107,12 @@ theorem rows_per_apid (ps : List DsPacket) (st st' : DsState) (a : Nat) (h : dsB
       | none =>
         simp only [hf] at hadd
         injection hadd with hadd; subst hadd
-        rw [rowsOf_append_new st a p.apid _ _ hf]
+        rw [rowsOf_append_new st a p.apid _ _ hf, keysOf_append_new st a p.apid _ _ hf]
         by_cases hap : a = p.apid
         · subst hap
-          have : rowsOf st p.apid = [] := by simp [rowsOf, hf]
-          simp [List.filter_cons, this]
+          have h1 : rowsOf st p.apid = [] := by simp [rowsOf, hf]
+          have h2 : keysOf st p.apid = none := by simp [keysOf, hf]
+          simp [List.filter_cons, h1, h2, rowsFrom]
         · have : ¬ p.apid = a := fun e => hap e.symm
           simp [hap, List.filter_cons, this]
       | some e =>
@@ -77,18 +120,76 @@ theorem rows_per_apid (ps : List DsPacket) (st st' : DsState) (a : Nat) (h : dsB
         simp only [hf] at hadd
         split at hadd
         · injection hadd with hadd; subst hadd
-          rw [rowsOf_map_append]
+          rw [rowsOf_map_append, keysOf_map_append]
           by_cases hap : a = p.apid
           · subst hap
-            simp [hf, List.filter_cons]
+            have h2 : keysOf st p.apid = some ks := by simp [keysOf, hf]
+            simp [hf, List.filter_cons, h2, rowsFrom, alignRow]
           · have : ¬ p.apid = a := fun e => hap e.symm
             simp [hap, List.filter_cons, this]
         · contradiction
 
 theorem create_rows (files : List (List DsPacket)) (st : DsState) (a : Nat) (h : createDataset files = some st) :
-    rowsOf st a = ((files.flatten).filter (·.apid = a)).map (fun p => p.cells.map (·.2)) := by
+    rowsOf st a = rowsFrom none ((files.flatten).filter (·.apid = a)) := by
   have := rows_per_apid files.flatten [] st a h
-  simpa [rowsOf] using this
+  simpa [rowsOf, keysOf] using this
+
+/-- Aligning a packet to a column order that names only fields it has puts, in each column, the packet's value of that
+    name: nothing is dropped, and the order of the items inside the packet plays no part. -/
+theorem alignRow_by_name (ks : List String) (p : DsPacket) (hall : ∀ k ∈ ks, k ∈ p.cells.map (·.1)) :
+    ∃ vals : List Param, alignRow ks p = vals ∧ vals.length = ks.length ∧
+      ∀ i (hi : i < ks.length) (hv : i < vals.length),
+        (p.cells.find? (·.1 == ks[i])).map (·.2) = some vals[i] := by
+  induction ks with
+  | nil => exact ⟨[], rfl, rfl, fun i hi => absurd hi (by simp)⟩
+  | cons k ks ih =>
+    obtain ⟨vals, hv, hlen, hget⟩ := ih (fun k' hk' => hall k' (by simp [hk']))
+    have hk := hall k (by simp)
+    obtain ⟨c, hc, hck⟩ := List.mem_map.mp hk
+    cases hfind : p.cells.find? (·.1 == k) with
+    | none =>
+      rw [List.find?_eq_none] at hfind
+      exact absurd (by simpa using hck) (hfind c hc)
+    | some c' =>
+      refine ⟨c'.2 :: vals, ?_, by simp [hlen], ?_⟩
+      · simp only [alignRow, List.filterMap_cons, hfind, Option.map_some]
+        exact congrArg _ hv
+      · intro i hi hv'
+        cases i with
+        | zero => simp [hfind]
+        | succ j => simpa using hget j (by simpa using hi) (by simpa using hv')
+
+theorem alignRow_self_aux (cells : List (String × Param)) :
+    ∀ (pre : List (String × Param)), (∀ c ∈ cells, ∀ q ∈ pre, q.1 ≠ c.1) → ((pre ++ cells).map (·.1)).Nodup →
+      (cells.map (·.1)).filterMap (fun k => ((pre ++ cells).find? (·.1 == k)).map (·.2)) = cells.map (·.2) := by
+  induction cells with
+  | nil => intro pre _ _; rfl
+  | cons c rest ih =>
+    intro pre hpre hnd'
+    have hfind : (pre ++ c :: rest).find? (·.1 == c.1) = some c := by
+      rw [List.find?_append]
+      have : pre.find? (·.1 == c.1) = none := by
+        rw [List.find?_eq_none]; intro q hq; simpa using hpre c (by simp) q hq
+      simp [this]
+    simp only [List.map_cons, List.filterMap_cons, hfind, Option.map_some]
+    congr 1
+    have := ih (pre ++ [c]) (by
+      intro c' hc' q hq
+      simp only [List.mem_append, List.mem_singleton] at hq
+      rcases hq with hq | rfl
+      · exact hpre c' (by simp [hc']) q hq
+      · intro e
+        rw [List.map_append, List.map_cons, List.nodup_append] at hnd'
+        have h2 := hnd'.2.1
+        rw [List.nodup_cons] at h2
+        exact h2.1 (by rw [e]; exact List.mem_map_of_mem hc')) (by simpa [List.append_assoc] using hnd')
+    simpa [List.append_assoc] using this
+
+/-- The first packet's own row is the aligned row too, when its field names are distinct (they are dictionary keys). -/
+theorem alignRow_self (p : DsPacket) (hnd : (p.cells.map (·.1)).Nodup) :
+    alignRow (p.cells.map (·.1)) p = p.cells.map (·.2) := by
+  have := alignRow_self_aux p.cells [] (by simp) (by simpa using hnd)
+  simpa [alignRow] using this
 
 /-- A stream whose packets of one APID differ in field set is rejected. -/
 theorem rejects_mixed (st : DsState) (p : DsPacket) (ks : List String) (rows : List (List Param))
@@ -292,5 +393,18 @@ theorem mil_fits (e : NumEnc) (bits : Nat) (hf : e.isFloat = true) (henc : e.enc
 
 /-- Non-vacuity, and the value that the unrepaired float32 choice rounded: mantissa 1, exponent −128. -/
 example : mil1750aVal 0x00000180 = .fin (pow2 (-151)) := by decide +kernel
+
+/-- Two packets of one APID listing the same fields in opposite order: one dataset, each value in its own column
+    (and the premises of `rows_per_apid` / `alignRow_by_name` are met by a concrete stream). -/
+example :
+    createDataset [[⟨5, [("A", mkParam .IntP (.int 1)), ("B", mkParam .IntP (.int 2))]⟩,
+                    ⟨5, [("B", mkParam .IntP (.int 20)), ("A", mkParam .IntP (.int 10))]⟩]] =
+      some [(5, (["A", "B"], [[mkParam .IntP (.int 1), mkParam .IntP (.int 2)],
+                               [mkParam .IntP (.int 10), mkParam .IntP (.int 20)]]))] := by decide +kernel
+
+/-- … while a packet with another field set is rejected. -/
+example :
+    createDataset [[⟨5, [("A", mkParam .IntP (.int 1)), ("B", mkParam .IntP (.int 2))]⟩,
+                    ⟨5, [("A", mkParam .IntP (.int 10)), ("C", mkParam .IntP (.int 20))]⟩]] = none := by decide +kernel
 
 end Spp.C18
